@@ -378,6 +378,53 @@ def check_region(ctx, lang, loc, s):
     ctx.count("region:equal")
 
 
+def own_relative_strings(lang, loc, limit=3):
+    """Strings instantiated from the relative-type-regex patterns that the regional locale lists itself (read from the shipped
+    data file by the private loader), e.g. en-CA '2 wks ago'."""
+    import re as _re
+    from ..oracles import vocab
+
+    spec = (vocab.language_data(lang).get("locale_specific", {}) or {}).get(loc, {}) or {}
+    out = []
+    for _canon, pats in (spec.get("relative-type-regex", {}) or {}).items():
+        for p in pats:
+            if p.count("(") == 1 and "(\\d+" in p:
+                out.append(_re.sub(r"\(\\d\+[^)]*\)", "2", p))
+    return sorted(set(out))[:limit]
+
+
+def check_region_after_plain(ctx, lang, loc, s):
+    """The regional selection (locales=[loc], and language+region) must give the same answer whether or not the plain
+    language was used before with the same settings: asked first under settings never used with the plain language
+    (regional first), then under another settings value after a plain-language call. The two settings values are unique to this
+    locale and differ only in an extra SKIP_TOKENS entry that occurs in no string (the default is ['t']), so each has its own
+    entry in every per-settings cache of the library and the same meaning."""
+    from dateparser.date import DateDataParser
+
+    region = loc[len(lang) + 1:]
+    st1 = {"RELATIVE_BASE": B, "SKIP_TOKENS": ["t", loc + "-a"]}
+    st2 = {"RELATIVE_BASE": B, "SKIP_TOKENS": ["t", loc + "-b"]}
+    case = {"kind": "region-after-plain", "language": lang, "region": region, "locale": loc, "string": s}
+    try:
+        first = DateDataParser(locales=[loc], settings=st1).get_date_data(s)
+        DateDataParser(languages=[lang], settings=st2).get_date_data(s)
+        DateDataParser(languages=[lang], settings=st2).get_date_data("1 " + s)
+        after = DateDataParser(locales=[loc], settings=st2).get_date_data(s)
+        after_r = DateDataParser(languages=[lang], region=region, settings=st2).get_date_data(s)
+    except Exception as e:
+        ctx.violation(case, e, "a DateData", "selection-raised", {"kind": "region-after-plain"})
+        return
+    ctx.ran()
+    t1, t2, t3 = [(x["date_obj"], x["period"], x["locale"]) for x in (first, after, after_r)]
+    if t1 != t2 or t1 != t3:
+        ctx.violation(case, {"after_plain_locales": t2, "after_plain_region": t3}, t1, "regional-selection-depends-on-history",
+                      {"kind": "region-after-plain", "locale": loc})
+        return
+    if first["date_obj"] is not None:
+        ctx.nontrivial("region-after-plain", loc, s)
+    ctx.count("region-after-plain:equal")
+
+
 def check_mixed(ctx, langs, region, s):
     from dateparser.data.languages_info import language_locale_dict, language_order
     from dateparser.date import DateDataParser
@@ -503,6 +550,10 @@ def run_regions(ctx, desc):
     for lang, loc in pairs:
         for s in ("02/03/2015", "12 2015", "10:45"):
             check_region(ctx, lang, loc, s)
+        for s in own_relative_strings(lang, loc):
+            check_region(ctx, lang, loc, s)
+            check_region_after_plain(ctx, lang, loc, s)
+            ctx.count("own_relative_strings")
     ctx.count("region_pairs_walked", len(pairs))
     # invalid (language, region) pairs: regions of locales that only share the language's prefix, and two regions that
     # exist for other languages
